@@ -1,7 +1,7 @@
 SPECIFICATION Spec
 CONSTANTS
-Coefs = {0, 1, 2, 3, 4}
-CD = 4
+Coefs = {0, 1, 3, 4, 8, 12, 16}
+CD = 16
 Bounds = {0, 1, 2, 3, 4, 5}
 INVARIANTS InUnitInterval Finite SeriesAgrees FirstLevelRule
 PROPERTIES StrictlyMonotone
